@@ -624,7 +624,7 @@ func (p c3Prog) canonicalParts() []string {
 			return name(s.T) + " = " + v
 		case "ret":
 			if s.St != 0 {
-				return "> " + ce(s.E) + " :: status"
+				return "> " + ce(s.E) + " @status" // (no " :: " inside a key: it ends the key in known_findings.txt)
 			}
 			return "> " + ce(s.E)
 		case "expr":
